@@ -87,10 +87,17 @@ snippet("ragged-row", "def f(d, l, i):\n    return RaggedArray(d, l)[i]", [(np.a
 snippet("ragged-slice-fn", "def f(d, s, e):\n    return ragged_slice(d, s, e)", [(np.arange(10), ints(1, 5, 9, 0), ints(3, 5, 12, -2)), (np.arange(6), ints(2, 4), ints(1, 6))])
 snippet("ragged-view-index", "def f(d, l, s, m):\n    return RaggedArray(d, l)[RaggedView(s, m)]", [(np.arange(10), ints(4, 2, 4), ints(0, 4, 6), ints(3, 2, 0))])
 snippet("shift-by-array", "def f(a):\n    return ((a[:, None] >> (4 * np.arange(2, dtype=np.uint8)[::-1])).ravel() & np.uint8(15))", [(np.array([0x12, 0xf0, 0x0f, 0xab], dtype=np.uint8),)])
+snippet("ragged-arith", "def f(x, l):\n    from_shape = RaggedShape(l)\n    e = RaggedArray(np.arange(int(l.sum()))[::-1].copy() % 3, from_shape)\n    return (x[:, np.newaxis] // 10 ** e % 10)",
+        [(ints(1234, 56, 7), ints(2, 1, 3)), (ints(905,), ints(3,))])
+snippet("ragged-mask-col-store", "def f(d, l, m):\n    r = RaggedArray(d.copy(), l)\n    r[m, 0] = 45\n    return r", [(np.arange(7), ints(3, 1, 3), np.array([True, False, True]))])
 snippet("unsafe-extend", "def f(a):\n    return np.diff(unsafe_extend_left(unsafe_extend_right(a)))", [(A5,)])
 
 
 def _to_sym(ip, v):
+    if isinstance(v, np.ndarray) and v.dtype == bool:
+        vals = [bool(x) for x in v]
+        return SArr.fresh(len(vals), lambda i, vals=vals: (vals[conc(i)] if isinstance(conc(i), int) and 0 <= conc(i) < len(vals) else
+                                                              z3.Or(*[z3.And(I(i) == j, z3.BoolVal(b)) for j, b in enumerate(vals)])), "bool")
     if isinstance(v, (np.ndarray, bytes)):
         return ip.list_to_arr([int(x) for x in v])
     return v
@@ -110,7 +117,7 @@ def _globs():
     import npstructures
     from npstructures.raggedshape import RaggedView2, RaggedView
     from npstructures.util import unsafe_extend_right, unsafe_extend_left
-    return {"np": np, "RaggedArray": npstructures.RaggedArray, "RaggedView2": RaggedView2, "RaggedView": RaggedView, "ragged_slice": npstructures.ragged_slice,
+    return {"np": np, "RaggedArray": npstructures.RaggedArray, "RaggedView2": RaggedView2, "RaggedView": RaggedView, "RaggedShape": __import__("npstructures").RaggedShape, "ragged_slice": npstructures.ragged_slice,
             "unsafe_extend_right": unsafe_extend_right, "unsafe_extend_left": unsafe_extend_left}
 
 
